@@ -408,9 +408,10 @@ func propC20(j *Job) {
 			a := withBase(mode.A, 228, 0xFFFFFFFE, 4000)
 			b := withBase(mode.B, 228, 0xFFFFFFF0, 4000)
 			d := 1
-			if j.Thorough() && pi < 6 {
+			if j.Thorough() {
 				d = 2
 			}
+			_ = pi
 			if !j.Thorough() && mi == 1 && pi%2 == 1 {
 				continue
 			}
@@ -450,7 +451,7 @@ func propC20(j *Job) {
 				a.BlockWrite = true
 				b.RecvBuf = 1500
 			}
-			j.Explore(fmt.Sprintf("CS/%s/%s", mode.Name, strings.ReplaceAll(prog, " ", "+")), concScenario(&concSpec{A: a, B: b, prog: prog, selects: true}), Budget{D: 1}, nil)
+			j.Explore(fmt.Sprintf("CS/%s/%s", mode.Name, strings.ReplaceAll(prog, " ", "+")), concScenario(&concSpec{A: a, B: b, prog: prog, selects: true}), Budget{D: map[bool]int{false: 1, true: 2}[j.Thorough()]}, nil)
 			if j.capped() {
 				break
 			}
